@@ -616,3 +616,21 @@ Theorem C08_gen_version_check_cont :
   else if (ptr =? version) && (ver =? mem version) then Ok tt else Exn.
 Proof. exact gen_version_check_cont. Qed.
 Print Assumptions C08_gen_version_check_cont.
+
+(* ------------------------------------------------------------------ grow round 5 *)
+(* the REAL unordered_multimap::erase(first, last) (regenerated), with iterators interpreted as positions of begin()..end() of a
+   model container and the iterators returned by RemoveKey / Remove as markers of the chosen effect, IS the hand model's
+   w_erase_range -- so C08_wrapper_erase_range_removes_exactly_the_range is a theorem about the generated code *)
+Theorem C08_gen_wrapper_erase_range_refines :
+  forall (M : Z) (m : mm), NoDup (keys (fst m)) -> (forall e, In e (fst m) -> 0 <= ekey e) ->
+  forall a b : nat, (a <= b <= length (pairs m))%nat ->
+  apply_gen_result M m (gen_erase m a b) = w_erase_range M m a b.
+Proof. exact gen_erase_range_refines. Qed.
+Print Assumptions C08_gen_wrapper_erase_range_refines.
+
+(* the nested map's key-version counter changes iff the call adds / removes a key or is Clear; if it is unchanged the key list
+   is unchanged (same keys, same order): a key iterator that passes its version check still designates the same key *)
+Theorem C08_key_version_guards_keys :
+  forall (M : Z) (m : mm) (o : op), kver_changes M m o = false -> keys (fst (step1 M m o)) = keys (fst m).
+Proof. exact key_version_guards_keys. Qed.
+Print Assumptions C08_key_version_guards_keys.
